@@ -428,7 +428,15 @@ func (w *Walker) canonD(st *wstate, fr *frame, v ssa.Value, d int) string {
 			return "recv(" + w.canonD(st, fr, x.X, d+1) + ")@" + x.Name()
 		}
 	case *ssa.BinOp:
-		return "(" + w.canonD(st, fr, x.X, d+1) + " " + x.Op.String() + " " + w.canonD(st, fr, x.Y, d+1) + ")"
+		e := "(" + w.canonD(st, fr, x.X, d+1) + " " + x.Op.String() + " " + w.canonD(st, fr, x.Y, d+1) + ")"
+		switch x.Op {
+		case token.ADD, token.SUB, token.MUL, token.SHL:
+			// arithmetic in a narrow integer type wraps: make that explicit
+			if sz, _, ok := isInteger(x.Type()); ok && sz < 8 {
+				return "conv:" + typeShort(x.Type().Underlying()) + "(" + e + ")"
+			}
+		}
+		return e
 	case *ssa.Call:
 		return w.callCanon(st, fr, x, d)
 	case *ssa.Extract:
